@@ -251,6 +251,7 @@ impl Property for C07 {
                 prop_oneof![
                     (100u32..20_000, 0u8..8, any::<u64>()).prop_map(|(len, arch, seed)| Seg::Opcode { len, arch, seed }),
                     (100u32..20_000, 0u8..8, any::<u32>()).prop_map(|(len, file, off)| Seg::Exe { len, file, off }),
+                    (4000u32..40_000, any::<u64>()).prop_map(|(len, seed)| Seg::X86Soup { len, seed }),
                 ],
                 1..3,
             )
